@@ -82,28 +82,17 @@ def specFields (isReq : Bool) (frames : List Frame) : SpecOut (List Field) :=
   match primaryBlock frames with
   | none => .nothing []
   | some (_, _, .incomplete) =>
-    .nothing ((if KF.C16.headersPaddedOrPriority frames then ["KF.C16.headersPaddedOrPriority"] else []) ++
-              (if KF.C16.headersContinued frames then ["KF.C16.headersContinued"] else []))
+    .nothing (if KF.C16.headersContinued frames then ["KF.C16.headersContinued"] else [])
   | some (_, _, .malformed) => .unspecified
   | some (f, after, .complete b) =>
     match Spec.Hpack.decodeBlock {} b with
     | none => .unspecified
     | some o =>
-      let legal := (if isReq then legalRequestFields o.fields else legalResponseFields o.fields) && noLaterBlocks f after &&
-        noStrayContinuation f frames
+      let legal := (if isReq then legalRequestFields o.fields else legalResponseFields o.fields) && noLaterBlocks f after
       if !legal then .unspecified
       else
-        let t := textFields o.fields
-        let reported := if isReq then requestHeaders t else regular t
-        let (ol, sl) := if isReq then (Gen.H2Lists.requestOptionalHeaders, Gen.H2Lists.requestSkipValueHeaders)
-                        else (Gen.H2Lists.responseOptionalHeaders, Gen.H2Lists.responseSkipValueHeaders)
-        let kf :=
-          (if KF.C16.headersPaddedOrPriority frames then ["KF.C16.headersPaddedOrPriority"] else []) ++
-          (if KF.C16.headersContinued frames then ["KF.C16.headersContinued"] else []) ++
-          (if KF.C16.emptyValue isReq o.fields then ["KF.C16.emptyValue"] else []) ++
-          (if o.staticRefs.contains 15 then ["KF.C16.hpackStaticEntry15"] else [])
-        let kfSig := if KF.C16.listCase ol sl reported then ["KF.C16.listCase"] else []
-        .message o.fields (kf ++ kfSig) (featTag o.feats ++ "/" ++ fieldTag o.fields)
+        let kf := if o.staticRefs.contains 15 then ["KF.C16.hpackStaticEntry15"] else []
+        .message o.fields kf (featTag o.feats ++ "/" ++ fieldTag o.fields)
 
 def blockTag (frames : List Frame) : String :=
   match primaryBlock frames with
